@@ -223,6 +223,7 @@ class EngineB:
             return list(obs.values())
         self.rep.fuc(c.qualname, msrc.where(fn), msrc.func_hash(fn))
         I = Interp(timeout_ms=self.timeout_ms, contracts=self.contracts)
+        I.tier = "quick" if self.timeout_ms <= 10000 else "thorough"
         state = {}
         npaths = 0
         failures = {cl.name: [] for cl in clause_list + [raises_clause]}
@@ -318,9 +319,16 @@ class EngineB:
                     ob.detail = str(e)
             return list(obs.values())
         except Unsupported as e:
-            for ob in obs.values():
-                ob.status = UNDECIDED
-                ob.detail = f"out of reach: {e}"
+            for name, ob in obs.items():
+                if failures.get(name):
+                    # a clause that is false on a feasible path explored BEFORE the engine gave up is refuted all the same
+                    ob.status = REFUTED
+                    ob.detail = (f"{len(failures[name])} of the {npaths} paths explored fail (exploration abandoned: {e}): "
+                                 + "; ".join(x[0] for x in failures[name][:3]))
+                    ob._models = [x[1] for x in failures[name]]    # type: ignore[attr-defined]
+                else:
+                    ob.status = UNDECIDED
+                    ob.detail = f"out of reach: {e}"
                 ob.time_s = (time.time() - t0) / max(1, len(obs))
             return list(obs.values())
         except RecursionError as e:
